@@ -3,7 +3,7 @@
      src/cpp/arg-val-math.c  rtosc_arg_val_from_int / _mult / _add / _range_arg
      src/cpp/arg-val-cmp.c   rtosc_arg_vals_eq_single / _cmp_single / _eq / _cmp,
                              _cmp_has_next, _eq_after_abort   (opt = NULL: tolerance 0)
-     src/cpp/arg-val.c       rtosc_avmessage (+ the part of rtosc_amessage it uses)
+     src/cpp/arg-val.c       rtosc_avmessage (ending in rtosc_amessage = Osc/OscModel.amessage)
      src/cpp/arg-ext.c       the packed 'a' and '-' headers
 
    A value list is the flat C layout: a [list slot].  A pointer into it is
@@ -20,6 +20,7 @@
    (ArgVal/AvFloat.v).  Float *comparison* is done on the bit patterns.
    No proofs in this file. *)
 From Coq Require Import List ZArith Bool.
+From RtoscV Require Osc.OscModel.
 Import ListNotations.
 Local Open Scope Z_scope.
 
@@ -564,37 +565,35 @@ Fixpoint collect (F : fops) (n : nat) (it : itr) : option (list slot) :=
       end
   end.
 
-(* has_reserved (src/rtosc.c): the tags rtosc_amessage takes an rtosc_arg_t for *)
+(* the values rtosc_avmessage stores an rtosc_arg_t for:
+   strchr("isbfhtdSrmc", cur->type) *)
 Definition has_reserved (t : Z) : bool :=
   (t =? 105) || (t =? 115) || (t =? 98) || (t =? 102) || (t =? 104) || (t =? 116) ||
   (t =? 100) || (t =? 83) || (t =? 114) || (t =? 109) || (t =? 99).
 
-Definition pad4 (s : list Z) : list Z := s ++ repeat 0 (Z.to_nat (4 - Zlength s mod 4)).
-Definition be (n : nat) (x : Z) : list Z :=           (* n bytes, big endian, two's complement *)
-  map (fun k => (x / 2 ^ (8 * Z.of_nat k)) mod 256) (rev (seq 0 n)).
+Definition slot_val (s : slot) : sval := match s with SV _ v => v | _ => VNone end.
 
-(* the bytes rtosc_amessage writes for one argument with payload *)
-Definition enc_one (t : Z) (v : sval) : option (list Z) :=
-  if (t =? 104) || (t =? 116) || (t =? 100) then
-    match v with VH x | VT x | VD x => Some (be 8 x) | _ => None end
-  else if (t =? 114) || (t =? 102) || (t =? 99) || (t =? 105) then
-    match v with VI x | VF x => Some (be 4 x) | _ => None end
-  else if t =? 109 then
-    match v with VM m => if Zlength m =? 4 then Some m else None | _ => None end
-  else if (t =? 115) || (t =? 83) then
-    match v with VS (Some s) => Some (pad4 s) | _ => None end
-  else if t =? 98 then
+(* the rtosc_arg_t union holding v, as rtosc_amessage reads it under the tag t
+   (the payload type of the byte codec, Osc/OscModel.v).  None: it
+   dereferences a NULL string, or the tag selects a member the value does not
+   have. *)
+Definition arg_payload (t : Z) (v : sval) : option OscModel.payload :=
+  if t =? 109 then
     match v with
-    | VB len data =>
-        if (len <? 0) || negb (Zlength data =? len) then None
-        else Some (be 4 len ++ data ++ repeat 0 (Z.to_nat ((4 - len mod 4) mod 4)))
+    | VM [a; b; c; d] => Some (OscModel.P4 (OscModel.unbe32 a b c d))
     | _ => None
     end
-  else None.
+  else
+    match OscModel.kind_of t, v with
+    | OscModel.K4, VI x | OscModel.K4, VF x => Some (OscModel.P4 x)
+    | OscModel.K8, VH x | OscModel.K8, VT x | OscModel.K8, VD x => Some (OscModel.P8 x)
+    | OscModel.KS, VS (Some s) => Some (OscModel.PStr s)
+    | OscModel.KB, VB len d => Some (OscModel.PBlob len (Some d))
+    | _, _ => None
+    end.
 
-(* rtosc_amessage(buffer, len, address, argstr, vals) with a buffer that is
-   large enough: vals holds one entry per tag with payload *)
-Fixpoint enc_args (types : list Z) (vals : list sval) : option (list Z) :=
+(* rtosc_amessage takes the next entry of vals at every tag with payload *)
+Fixpoint arg_payloads (types : list Z) (vals : list sval) : option (list OscModel.payload) :=
   match types with
   | [] => Some []
   | t :: ts =>
@@ -602,30 +601,25 @@ Fixpoint enc_args (types : list Z) (vals : list sval) : option (list Z) :=
         match vals with
         | [] => None
         | v :: vs =>
-            match enc_one t v, enc_args ts vs with
-            | Some b, Some rest => Some (b ++ rest)
+            match arg_payload t v, arg_payloads ts vs with
+            | Some p, Some ps => Some (p :: ps)
             | _, _ => None
             end
         end
-      else enc_args ts vals
+      else arg_payloads ts vals
   end.
 
-Definition amessage (addr : list Z) (types : list Z) (vals : list sval) : option (list Z) :=
-  match enc_args types vals with
-  | Some body => Some (pad4 addr ++ pad4 (44 :: types) ++ body)
-  | None => None
-  end.
-
-Definition slot_val (s : slot) : sval := match s with SV _ v => v | _ => VNone end.
-
-(* [payload_only = true]: the code after "fix: rtosc_avmessage ..." (vals gets
-   an entry only for tags with payload); false: before (one entry per value,
+(* rtosc_avmessage(buffer, len, address, nargs, args): buf = None is the NULL
+   probe, Some b a destination of capacity |b|; result (return value, buffer
+   afterwards) as for OscModel.amessage, which it ends in.
+   [payload_only = true]: the code after "fix: rtosc_avmessage ..." (vals gets
+   an entry only for values with payload); false: before (one entry per value,
    so every payload behind a T/F/N/I or an array is taken from the wrong
-   entry).  For the old code the union of a payload-less value is modelled as
-   VNone, which no payload tag can encode: the model then reports None where
-   the C code sends whatever bytes that union holds. *)
-Definition avmessage_gen (payload_only : bool) (F : fops) (addr : list Z) (a : list slot) (nargs : Z)
-  : option (list Z) :=
+   entry; the union of a payload-less value is modelled as VNone, which no
+   payload tag can read: the model then reports None where the C code sends
+   whatever bytes that union holds). *)
+Definition avmessage_gen (payload_only : bool) (F : fops) (buf : option (list Z)) (addr : list Z)
+           (a : list slot) (nargs : Z) : option (Z * option (list Z)) :=
   match count_vals (fuel_of a) (itr_init a) nargs with
   | None => None
   | Some n =>
@@ -636,8 +630,14 @@ Definition avmessage_gen (payload_only : bool) (F : fops) (addr : list Z) (a : l
           let vals := if payload_only
                       then map slot_val (filter (fun s => has_reserved (slot_type s)) heads)
                       else map slot_val heads in
-          (* rtosc_amessage takes the next entry of vals at every payload tag *)
-          amessage addr types vals
+          match arg_payloads types vals with
+          | None => None
+          | Some ps =>
+              match OscModel.amessage buf addr types ps with
+              | OscModel.Ok r => Some r
+              | _ => None
+              end
+          end
       end
   end.
 
